@@ -172,6 +172,12 @@ def check_stream(P, R):
     loop = loops[0]
     counter = T.counter_of_while(loop)
     okc = counter == count
+    es = T.early_stop_bound(loop) if counter is None else None
+    if es is not None:
+        R.ob('C17.c', f, loop.test, False, text=f'while {src(loop.test)}', detail=
+             f'the streaming loop gives up while {es[1]} byte(s) of the slice are still outstanding: fewer bytes are delivered than Content-Length / Content-Range announce',
+             why='Content-Range, Content-Length and the delivered bytes describe the same slice', key_extra='early-stop')
+        return
     cu = T.countup_of_while(loop) if counter is None else None
     if cu is not None:
         return check_stream_countup(P, R, f, loop, cu)
